@@ -674,10 +674,6 @@ def inputs(ctx: Ctx) -> Iterator[Tuple[Hier, str]]:
 # --------------------------------------------------------------------------- runner hooks
 
 
-def _classify(h: Hier) -> None:
-    pass
-
-
 def _run(ctx: Ctx, with_model: bool) -> None:
     batch: List[Tuple[Hier, str]] = list(inputs(ctx))
     outs = [impl(h) for h, _ in batch]
